@@ -309,6 +309,22 @@ func checkC07(p *core.Program, r *core.Report) {
 	if !r.Check(truthy != nil && callTest != nil, "R3", "matchCase/anchors", p.Pos(mc.Pos()), "test call and truthiness check found", "matchCase no longer calls the test / checks truthiness") {
 		return
 	}
+	// whether a case is tested does not depend on where it leads: no condition the test call depends on reads the
+	// case's category or the router's default category
+	{
+		lead := ""
+		for _, ce := range core.MayConds(callTest.Block()) {
+			for v := range core.BackSlice(ce.Cond, nil) {
+				if fa, ok := v.(*ssa.FieldAddr); ok && core.FieldAddrVar(fa) != nil {
+					switch core.FieldAddrVar(fa).Name() {
+					case "CategoryUUID", "defaultCategoryUUID":
+						lead = core.FieldAddrVar(fa).Name() + " (" + p.Pos(ce.If.Pos()) + ")"
+					}
+				}
+			}
+		}
+		r.Check(lead == "", "R3", "matchCase/every-case-is-tested-whatever-its-category", p.Pos(callTest.Pos()), "the test call does not depend on the case's category", "a case is skipped depending on "+lead+": a matching case that leads to the default category no longer stops a later matching case from winning, and the saved match is no longer that case's")
+	}
 	// forward range over recv.cases
 	var caseIdx ssa.Value
 	for v := range core.BackSlice(callTest.Call.Args[0], func(*ssa.Call) bool { return true }) {
